@@ -1,8 +1,14 @@
 #!/bin/sh
-# tools/seed_test.sh <seed-dir-name> <property> [check args...]: apply seeded/<name>/patch.diff to /repo, run the check, undo.
+# tools/seed_test.sh <seed-dir-name> <property> [check args...]: run the check of <property> against a scratch worktree of
+# /repo with seeded/<name>/patch.diff applied (PYTHONPATH makes the check import that worktree; /repo itself is not
+# touched, so several of these can run side by side), then remove the worktree.  Evidence and replays of such runs go to
+# .work/ (VERIF_SCRATCH_RUN), never to evidence/.
 name="$1"; prop="$2"; shift 2
-cd /repo && git status --short | grep -q . && { echo "repo not clean"; exit 9; }
-git -C /repo apply "/verif/seeded/$name/patch.diff" || exit 8
-cd /verif && VERIF_SCRATCH_RUN=1 ./check "$prop" "$@" > "/tmp/seed_$name.log" 2>&1; rc=$?
-git -C /repo checkout -- .
-echo "exit=$rc"; grep -c "^VIOLATION" "/tmp/seed_$name.log"; grep "^VIOLATION\|failed obligation" "/tmp/seed_$name.log" | head -4; tail -1 "/tmp/seed_$name.log" | cut -c1-220
+wt=/tmp/st_${name}_${prop}_$$
+log=/tmp/seed_${name}_${prop}.log
+git -C /repo worktree add -q --detach $wt HEAD || exit 9
+git -C $wt apply "/verif/seeded/$name/patch.diff" || { git -C /repo worktree remove --force $wt; echo "patch does not apply"; exit 8; }
+cd /verif && PYTHONPATH=$wt VERIF_SCRATCH_RUN=1 ./check "$prop" "$@" > "$log" 2>&1; rc=$?
+git -C /repo worktree remove --force $wt
+git -C /repo worktree prune
+echo "exit=$rc"; grep -c "^VIOLATION" "$log"; grep "^VIOLATION\|failed obligation" "$log" | head -4; tail -1 "$log" | cut -c1-220
